@@ -87,7 +87,7 @@ PROPS['C01'] = dict(
     obligations=[
         L('c01_step', 'k_c01_step_{cfg}', QUICK, ALL, fixes=cuts_fixes),
         BR('c01_harness_via_irsym', ['ans_view_u32_u64', 'ans_view_u8_u32', 'ans_export_u8_u32', 'ans_export_u32_u64', 'ans_reimport_u32_u64']),
-        L('c01_batch_eq_loop', 'k_c01_batch_{cfg}', ['u8_u16_p4', 'u32_u64_p24'], ['u8_u16_p4', 'u8_u16_p8', 'u16_u32_p12', 'u32_u64_p24'], cap=dict(quick=60, thorough=600)),
+        L('c01_batch_eq_loop', 'k_c01_batch_{cfg}', ['u8_u16_p4'], ['u8_u16_p4', 'u8_u16_p8', 'u16_u32_p12', 'u32_u64_p24'], cap=dict(quick=60, thorough=600)),
         L('c01_batch_dec_eq_loop', 'k_c01_batch_dec_{cfg}', ['u8_u16_p4'], ['u8_u16_p4', 'u16_u32_p12', 'u32_u64_p24'], cap=dict(quick=60, thorough=600)),
         K('c01_ctor_u8_u16', 'ans', 'ctor_u8_u16'), K('c01_ctor_u16_u32', 'ans', 'ctor_u16_u32'), K('c01_ctor_u32_u64', 'ans', 'ctor_u32_u64'),
         K('c01_ctor_u8_u32', 'ans', 'ctor_u8_u32', tiers=('thorough',)),
